@@ -47,6 +47,11 @@ def make(kind, mode="min", seed=0, R=4, mra=True, space=None, metric="m", allow_
         searcher = {"fifo-random": "random", "fifo-grid": "grid", "fifo-bo": "bayesopt"}[kind]
         if kind == "fifo-grid":
             base_space = dict(space) if space is not None else {"a": choice([0.1, 0.5, 0.9]), "b": choice([1, 2])}
+            gs = kw.pop("grid_space", None)
+            if gs == "num":          # numerical grid: 5 x 5 points by default
+                base_space = {"a": uniform(0, 1), "b": randint(0, 9)}
+            elif gs == "num-small":  # same names, an integer range with fewer values than the default grid size
+                base_space = {"a": uniform(0, 1), "b": randint(0, 2)}
         if kind == "fifo-bo":
             so.update(num_init_random=10 ** 6)
         s = FIFOScheduler(base_space, searcher=searcher, metric=metric, mode=mode, random_seed=seed, search_options=so,
